@@ -23,6 +23,7 @@ TRANSFORMS = [
     "only with option `localconst` (a const item inside a function body whose initialiser calls a const fn cannot be evaluated in specifications by this Verus): `const NAME: T = e;` at statement position inside the body -> `let NAME: T = e;` (same value, computed when the statement is reached instead of at compile time)",
     "only with option `nestedret=<r>`: for every fn item nested inside the extracted function body, `-> T` -> `-> (<r>: T)` so that the contract woven at anchor `nested <fn>` can name its result (nested fn items are otherwise kept in place, verbatim)",
     "only with option `nodecreases`: the marked attribute line `#[verifier::exec_allows_no_decreases_clause]` is put before the function: Verus then does not ask for a termination measure on its loops, i.e. termination is NOT proved for that function (used for retry loops that end with probability 1 only); nothing in the body changes",
+    "only with option `fwdloops=T` (this Verus rejects `continue` inside `for` loops): `for v in a..b {` (a, b identifiers, literals or parenthesised expressions) -> `let mut vforK: T = a; while vforK < b { let v = vforK; vforK = vforK + 1;` (same iteration sequence; the counter is advanced before the body so that `continue` reaches the next value; the body is untouched). Applied after `revloops`, so `.rev()` loops keep their own rewriting",
     "only with option `lebytes` (this Verus cannot attach a specification to the std byte-order conversions, whose signatures use the const expression `[u8; size_of::<T>()]`): `<int>::from_le_bytes(` -> `<int>_from_le_bytes(`, `<int>::from_be_bytes(` -> `<int>_from_be_bytes(` (int in u16/u32/u64/u128), and the method calls `.to_le_bytes()` / `.to_be_bytes()` -> `.vto_le_bytes()` / `.vto_be_bytes()`; the twins are declared in contracts/spec/lebytes_decl.vrs with the std semantics as ASSUMED contracts (trusted: std)",
     "only with option `revloops=<T>` (this Verus has no specification for Rev<Range>): `for v in (a..b).rev() {` -> `let mut vrev<k>: T = b; while vrev<k> > a { vrev<k> = vrev<k> - 1; let v = vrev<k>;` (k-th such loop; a, b are the literal or identifier bounds as written; the loop body is unchanged; same iteration sequence b-1, b-2, .., a)",
 ]
@@ -451,7 +452,7 @@ class Woven:
         self.name = name
 
 
-def normalise_fn(fn_src, cfg, rename=None, ret_name=None, debug_assert_verus=True, vis="pub ", revloops=None, lebytes=False, destruct=False, localconst=False, nestedret=None):
+def normalise_fn(fn_src, cfg, rename=None, ret_name=None, debug_assert_verus=True, vis="pub ", revloops=None, lebytes=False, destruct=False, localconst=False, nestedret=None, fwdloops=None):
     """Apply the TRANSFORMS to a raw fn slice; returns (text, undo) where undo
     is info the erasure check needs."""
     s = resolve_cfg(fn_src, cfg)
@@ -509,6 +510,14 @@ def normalise_fn(fn_src, cfg, rename=None, ret_name=None, debug_assert_verus=Tru
             return "let mut vrev%d: %s = %s; while vrev%d > %s { vrev%d = vrev%d - 1; let %s = vrev%d;" % (
                 k, revloops, m.group(3), k, m.group(2), k, k, m.group(1), k)
         s = re.sub(r'\bfor\s+(\w+)\s+in\s+\(\s*(\w+|\([^()]*\))\s*\.\.\s*(\w+|\([^()]*\))\s*\)\s*\.\s*rev\s*\(\s*\)\s*\{', _rv, s)
+    if fwdloops:
+        fc = [0]
+        def _fw(m):
+            k = fc[0]
+            fc[0] += 1
+            return "let mut vfor%d: %s = %s; while vfor%d < %s { let %s = vfor%d; vfor%d = vfor%d + 1;" % (
+                k, fwdloops, m.group(2), k, m.group(3), m.group(1), k, k, k)
+        s = re.sub(r'\bfor\s+(\w+)\s+in\s+(\w+|\([^()]*\))\s*\.\.\s*(\w+|\([^()]*\))\s*\{', _fw, s)
     if destruct:
         s = _destruct_text(s)
     if localconst:
@@ -610,7 +619,7 @@ def erase_tokens(fn_text):
     return [t.text for t in tokenize('\n'.join(lines))]
 
 
-def source_tokens(fn_src, cfg, rename=None, ret_name=None, debug_assert_verus=True, vis="pub ", revloops=None, lebytes=False, destruct=False, localconst=False, nestedret=None):
+def source_tokens(fn_src, cfg, rename=None, ret_name=None, debug_assert_verus=True, vis="pub ", revloops=None, lebytes=False, destruct=False, localconst=False, nestedret=None, fwdloops=None):
     """Tokens the erasure check expects: the raw slice with the documented
     transformations applied mechanically *on tokens* (independent code path
     from normalise_fn's text surgery)."""
@@ -687,6 +696,38 @@ def source_tokens(fn_src, cfg, rename=None, ret_name=None, debug_assert_verus=Tr
                         out += ['let', 'mut', n, ':', revloops, '='] + b + [';', 'while', n, '>'] + a + ['{', n, '=', n, '-', '1', ';',
                                 'let', v, '=', n, ';']
                         i = j2 + 6
+                        done = True
+            if not done:
+                out.append(toks[i])
+                i += 1
+        toks = out
+    if fwdloops:
+        def _fb(j):
+            if toks[j] == '(':
+                e = j + 1
+                while toks[e] != ')':
+                    if toks[e] == '(':
+                        return None, None
+                    e += 1
+                return toks[j:e + 1], e + 1
+            if re.match(r'^\w+$', toks[j]):
+                return [toks[j]], j + 1
+            return None, None
+        out = []
+        i = 0
+        k = 0
+        while i < len(toks):
+            done = False
+            if toks[i] == 'for' and i + 3 < len(toks) and toks[i + 2] == 'in' and re.match(r'^\w+$', toks[i + 1]):
+                a, j = _fb(i + 3)
+                if a is not None and j < len(toks) and toks[j] == '..':
+                    b, j2 = _fb(j + 1)
+                    if b is not None and toks[j2] == '{':
+                        v = toks[i + 1]
+                        n = 'vfor%d' % k
+                        k += 1
+                        out += ['let', 'mut', n, ':', fwdloops, '='] + a + [';', 'while', n, '<'] + b + ['{', 'let', v, '=', n, ';', n, '=', n, '+', '1', ';']
+                        i = j2 + 1
                         done = True
             if not done:
                 out.append(toks[i])
